@@ -264,11 +264,6 @@ def Canonical (pda : List Key → Key → Key) : Ix → Prop
         ∧ nestedAta = pda (refAtaSeeds ownerAta tp nestedMint) refAtaId
   | _ => True
 
-/-- The one bound instruction whose metas differ from the reference on the current tree (finding C16-1). -/
-def isRecoverNested : Ix → Bool
-  | .ataRecoverNested .. => true
-  | _ => false
-
 /-! ## Framework side (interprets the generated tables) -/
 
 /-- Which generated enum variant an `Ix` constructor is built through (the harness builds it through the
